@@ -56,6 +56,7 @@ type gen struct {
 	counts   map[string]int
 	nextLeaf int64
 	noAssign bool // the receiver being rendered is not an assignment target (temporary, cast, ...)
+	noNil    bool // the value being generated must not be nil (dictionary values, payload of a double optional)
 	hugeLeft int // how many more non-inlinable Int leaves this program may introduce
 }
 
@@ -107,13 +108,27 @@ func (g *gen) lit(t *ty, depth int) *val {
 	case "dict":
 		n := g.rng.Intn(3)
 		for i := 0; i < n; i++ {
-			v.dictSet(int64(g.rng.Intn(6)), g.lit(t.elem, depth+1))
+			v.dictSet(int64(g.rng.Intn(6)), g.litSome(t.elem, depth+1))
+		}
+	case "opt":
+		// nil, or Some(payload); Some(nil) is never generated (log() cannot tell it from nil)
+		if g.noNil || !g.rng.Chance(1, 4) {
+			v.kids = []*val{g.litSome(t.elem, depth+1)}
 		}
 	case "struct":
 		for _, f := range t.fields {
 			v.kids = append(v.kids, g.lit(f.t, depth+1))
 		}
 	}
+	return v
+}
+
+// litSome: a literal that is not nil (for an optional type)
+func (g *gen) litSome(t *ty, depth int) *val {
+	old := g.noNil
+	g.noNil = true
+	v := g.lit(t, depth)
+	g.noNil = old
 	return v
 }
 
@@ -143,11 +158,21 @@ func (g *gen) reads(t *ty) []readSrc {
 	return out
 }
 
+func isNil(v *val) bool { return v.t.k == "opt" && len(v.kids) == 0 }
+
 func (g *gen) readOrLit(t *ty) gexpr {
 	if rs := g.reads(t); len(rs) > 0 && g.rng.Chance(3, 5) {
 		r := rs[g.rng.Intn(len(rs))]
-		p := fmt.Sprintf("PRead (RKey (KVar %d)) %s", r.v.idx, coqPath(r.loc.steps))
-		return gexpr{cad: fmt.Sprintf("v%d%s", r.v.idx, r.loc.suffix), coq: "EPart (" + p + ")", part: p, v: r.loc.v.clone()}
+		if !(g.noNil && isNil(r.loc.v)) {
+			p := fmt.Sprintf("PRead (RKey (KVar %d)) %s", r.v.idx, coqPath(r.loc.steps))
+			cad := fmt.Sprintf("v%d%s", r.v.idx, r.loc.suffix)
+			if strings.HasSuffix(cad, "!") && t.k != "int" && t.k != "opt" && g.rng.Chance(1, 3) {
+				// payload of an optional through nil-coalescing instead of force-unwrap
+				cad = "(" + strings.TrimSuffix(cad, "!") + " ?? " + g.litSome(t, 2).cad() + ")"
+				g.count("expr:nil-coalescing")
+			}
+			return gexpr{cad: cad, coq: "EPart (" + p + ")", part: p, v: r.loc.v.clone()}
+		}
 	}
 	l := g.lit(t, 1)
 	p := "PLit (" + l.coq() + ")"
@@ -158,6 +183,11 @@ func (g *gen) readOrLit(t *ty) gexpr {
 // result of passing a read through a function, or a container literal / constructor of reads.
 func (g *gen) expr(t *ty) gexpr {
 	r := g.rng.Intn(10)
+	if t.k == "opt" && r < 5 {
+		if e, ok := g.optFromPayload(t); ok {
+			return e
+		}
+	}
 	switch {
 	case r < 6 || t.k == "int":
 		return g.readOrLit(t)
@@ -165,6 +195,41 @@ func (g *gen) expr(t *ty) gexpr {
 		return g.callExpr(t)
 	}
 	return g.wrapExpr(t)
+}
+
+// An optional built from a non-optional read: the result of a dictionary lookup d[k] (always an
+// optional), or a value of type T used where T? is expected (implicit wrapping).
+func (g *gen) optFromPayload(t *ty) (gexpr, bool) {
+	type cand struct {
+		x    *gvar
+		l    loc
+		dict bool
+	}
+	var cands []cand
+	for _, x := range g.vars {
+		for _, l := range locs(x.v, 4) {
+			if l.v.t != t.elem || isNil(l.v) {
+				continue
+			}
+			cands = append(cands, cand{x, l, false})
+			if l.parent != nil && l.parent.t.k == "dict" {
+				cands = append(cands, cand{x, l, true}, cand{x, l, true})
+			}
+		}
+	}
+	if len(cands) == 0 {
+		return gexpr{}, false
+	}
+	c := cands[g.rng.Intn(len(cands))]
+	cad := fmt.Sprintf("v%d%s", c.x.idx, c.l.suffix)
+	if c.dict {
+		cad = strings.TrimSuffix(cad, "!") // d[k]: the lookup result itself
+		g.count("expr:dictionary-lookup")
+	} else {
+		g.count("expr:implicit-wrap")
+	}
+	p := fmt.Sprintf("PRead (RKey (KVar %d)) %s", c.x.idx, coqPath(c.l.steps))
+	return gexpr{cad: cad, coq: "EWrap KOpt [(0, " + p + ")]", v: &val{t: t, kids: []*val{c.l.v.clone()}}}, true
 }
 
 // id(read): argument passing + return
@@ -180,6 +245,13 @@ func (g *gen) wrapExpr(t *ty) gexpr {
 	v := &val{t: t}
 	var cads, parts []string
 	switch t.k {
+	case "opt":
+		old := g.noNil
+		g.noNil = true
+		e := g.readOrLit(t.elem)
+		g.noNil = old
+		v.kids = []*val{e.v}
+		return gexpr{cad: e.cad, coq: "EWrap KOpt [(0, " + e.part + ")]", v: v}
 	case "arr":
 		n := 1 + g.rng.Intn(3)
 		for i := 0; i < n; i++ {
@@ -193,7 +265,10 @@ func (g *gen) wrapExpr(t *ty) gexpr {
 		n := 1 + g.rng.Intn(3)
 		key := int64(g.rng.Intn(3))
 		for i := 0; i < n; i++ {
+			old := g.noNil
+			g.noNil = true
 			e := g.readOrLit(t.elem)
+			g.noNil = old
 			v.dictSet(key, e.v)
 			cads = append(cads, fmt.Sprintf("%d: %s", key, e.cad))
 			parts = append(parts, fmt.Sprintf("(%d, %s)", key, e.part))
@@ -270,9 +345,15 @@ func (g *gen) stCopyOut() bool {
 	p := fmt.Sprintf("PRead (RKey (KVar %d)) %s", src.idx, coqPath(l.steps))
 	cad := fmt.Sprintf("v%d%s", src.idx, l.suffix)
 	coq := "EPart (" + p + ")"
+	getter := map[string]string{".oxs": ".getOxs()", ".oin": ".getOin()", ".ooxs": ".getOoxs()"}
 	if l.v.t.idFun != "" && g.rng.Chance(1, 4) {
 		cad = "C05." + l.v.t.idFun + "(" + cad + ")"
 		coq = "ECallId (" + p + ")"
+	} else if i := strings.LastIndex(cad, "."); i >= 0 && getter[cad[i:]] != "" && g.rng.Chance(2, 3) {
+		// method result: `return self.f`
+		cad = cad[:i] + getter[cad[i:]]
+		coq = "ECallId (" + p + ")"
+		g.count("expr:method-return")
 	}
 	x := g.newVar(l.v.t, l.v.clone())
 	g.emit(fmt.Sprintf("var v%d = %s", x.idx, cad), fmt.Sprintf("SAssign (KVar %d) (%s)", x.idx, coq))
@@ -338,7 +419,10 @@ func (g *gen) containerOp(recv string, c *val) (cad, coq string, ok bool) {
 			return fmt.Sprintf("%s.remove(key: %d)", recv, k), fmt.Sprintf("ERemove %s", zc(k)), true
 		}
 		k := int64(g.rng.Intn(7))
+		old := g.noNil
+		g.noNil = true
 		e := g.expr(c.t.elem)
+		g.noNil = old
 		c.dictSet(k, e.v)
 		g.count("op:dict-set")
 		if g.noAssign || strings.Contains(recv, "!") || g.rng.Chance(1, 3) {
@@ -364,15 +448,29 @@ func (g *gen) stMutateVar() bool {
 	x := g.vars[g.rng.Intn(len(g.vars))]
 	var cands []loc
 	for _, l := range locs(x.v, 4) {
-		if l.v.t.container() {
+		if l.v.t.mutable() {
 			cands = append(cands, l)
 		}
 	}
+	if len(cands) == 0 {
+		return false
+	}
 	l := cands[g.rng.Intn(len(cands))]
 	recv := fmt.Sprintf("v%d%s", x.idx, l.suffix)
+	if strings.HasSuffix(recv, "!") && g.rng.Chance(1, 3) {
+		// optional chaining instead of force-unwrap: x?.append(..) acts on the payload in place
+		recv = strings.TrimSuffix(recv, "!") + "?"
+		g.noAssign = true
+		g.count("receiver:optional-chaining")
+	}
+	chained := strings.HasSuffix(recv, "?")
 	// expressions that pass the container through WITHOUT a transfer (static cast, conditional):
 	// the mutation still acts on the variable's own container
-	switch g.rng.Intn(12) {
+	pick := g.rng.Intn(12)
+	if chained {
+		pick = 11
+	}
+	switch pick {
 	case 0:
 		recv = "(" + recv + " as " + l.v.t.cad() + ")"
 		g.noAssign = true
@@ -386,6 +484,13 @@ func (g *gen) stMutateVar() bool {
 	g.noAssign = false
 	if !ok {
 		return false
+	}
+	if g.rng.Chance(1, 12) {
+		// the same mutation performed inside a closure: variables are captured by reference
+		f := fmt.Sprintf("f%d", g.nref)
+		g.nref++
+		cad = fmt.Sprintf("let %s = fun () { %s }; %s()", f, cad, f)
+		g.count("receiver:closure-capture")
 	}
 	g.emit(cad, fmt.Sprintf("SMutate (RKey (KVar %d)) %s (%s)", x.idx, coqPath(l.steps), op))
 	g.pruneRefs()
@@ -401,9 +506,12 @@ func (g *gen) stTakeRef() bool {
 	x := g.vars[g.rng.Intn(len(g.vars))]
 	var cands []loc
 	for _, l := range locs(x.v, 4) {
-		if l.v.t.container() {
+		if l.v.t.mutable() {
 			cands = append(cands, l)
 		}
+	}
+	if len(cands) == 0 {
+		return false
 	}
 	l := cands[g.rng.Intn(len(cands))]
 	r := &gref{idx: g.nref, t: l.v.t, target: l.v, owner: x}
@@ -464,7 +572,7 @@ func (g *gen) mutateThrough(r *gref) bool {
 	}
 	recv := fmt.Sprintf("r%d", r.idx)
 	c := r.target
-	if c.t.k == "struct" && g.rng.Chance(1, 2) {
+	if (c.t == tInner || c.t == tS) && g.rng.Chance(1, 2) {
 		// nested mutation through a method of the referenced struct
 		x := g.leaf()
 		switch {
@@ -536,27 +644,37 @@ func (g *gen) stTempMutate() bool {
 			coq: fmt.Sprintf("ECallId (PRead (RKey (KVar %d)) %s)", x.idx, coqPath(l.steps)), v: l.v.clone()}
 		form = "call-result"
 	default:
-		e = g.wrapExpr(universe[g.rng.Intn(len(universe))])
+		wt := universe[g.rng.Intn(len(universe))]
+		for wt.k == "opt" { // (x as T?) would box x without a transfer: not a copy
+			wt = universe[g.rng.Intn(len(universe))]
+		}
+		e = g.wrapExpr(wt)
 		if e.v.t.k != "struct" {
 			// a statement must not start with [ or {, and empty literals need a type
 			e.cad = "(" + e.cad + " as " + e.v.t.cad() + ")"
 		}
 		form = "literal"
 	}
-	hidden := &gvar{idx: g.nvar, t: e.v.t, v: e.v} // not in g.vars: never read, never logged
-	g.nvar++
-	g.cur.stmts = append(g.cur.stmts, fmt.Sprintf("SAssign (KVar %d) (%s)", hidden.idx, e.coq))
 	var cands []loc
-	for _, l := range locs(e.v, 2) {
-		if l.v.t.container() {
+	for _, l := range locs(e.v, 3) {
+		if l.v.t.mutable() {
 			cands = append(cands, l)
 		}
 	}
+	if len(cands) == 0 {
+		return false // e.g. a nil optional
+	}
+	hidden := &gvar{idx: g.nvar, t: e.v.t, v: e.v} // not in g.vars: never read, never logged
+	g.nvar++
+	g.cur.stmts = append(g.cur.stmts, fmt.Sprintf("SAssign (KVar %d) (%s)", hidden.idx, e.coq))
 	l := cands[g.rng.Intn(len(cands))]
 	if g.rng.Chance(1, 3) {
 		// reference taken directly to the temporary, then mutations through it
-		if strings.HasSuffix(l.suffix, "!") {
+		if strings.Contains(l.suffix, "!") {
 			l = cands[0]
+		}
+		if strings.Contains(l.suffix, "!") {
+			return g.tempDirect(e, hidden, l, form)
 		}
 		r := &gref{idx: g.nref, t: l.v.t, target: l.v, owner: hidden}
 		g.nref++
@@ -570,6 +688,10 @@ func (g *gen) stTempMutate() bool {
 		g.count("stmt:temporary-ref:" + form)
 		return g.mutateThrough(r)
 	}
+	return g.tempDirect(e, hidden, l, form)
+}
+
+func (g *gen) tempDirect(e gexpr, hidden *gvar, l loc, form string) bool {
 	g.noAssign = true
 	cad, op, ok := g.containerOp(e.cad+l.suffix, l.v)
 	g.noAssign = false
@@ -589,9 +711,12 @@ func (g *gen) stSave() bool {
 	x := g.vars[g.rng.Intn(len(g.vars))]
 	var cands []loc
 	for _, l := range locs(x.v, 3) {
-		if l.v.t.container() {
+		if l.v.t.mutable() {
 			cands = append(cands, l)
 		}
+	}
+	if len(cands) == 0 {
+		return false
 	}
 	l := cands[g.rng.Intn(len(cands))]
 	if g.rng.Chance(1, 2) {
@@ -652,6 +777,12 @@ func (g *gen) stCallMut() bool {
 		if (l.v.t == tArrInner || l.v.t == tArrS) && len(l.v.kids) > 0 {
 			cands = append(cands, cand{l, "loop"})
 		}
+		if l.v.t == tArrOptArrInt && len(l.v.kids) > 0 {
+			cands = append(cands, cand{l, "loop-opt"}, cand{l, "loop-opt"})
+		}
+		if l.parent != nil && l.parent.t.k == "opt" && (l.v.t == tArrInt || l.v.t == tInner) {
+			cands = append(cands, cand{l, "if-let"}, cand{l, "if-let"})
+		}
 	}
 	if len(cands) == 0 {
 		return false
@@ -659,6 +790,39 @@ func (g *gen) stCallMut() bool {
 	c := cands[g.rng.Intn(len(cands))]
 	src := fmt.Sprintf("v%d%s", x.idx, c.l.suffix)
 	root := fmt.Sprintf("(RKey (KVar %d))", x.idx)
+	if c.kind == "if-let" {
+		// optional binding: y is a copy of the payload
+		m := c.l.v.clone()
+		q, call := "[]", "y.append(93)"
+		if m.t == tInner {
+			q, call = "[1]", "y.appendYs(93)"
+			m.kids[1].kids = append(m.kids[1].kids, &val{t: tInt, n: 93})
+		} else {
+			m.kids = append(m.kids, &val{t: tInt, n: 93})
+		}
+		g.cur.lines = append(g.cur.lines, fmt.Sprintf("if let y = %s { %s; log(y) }", strings.TrimSuffix(src, "!"), call))
+		g.cur.stmts = append(g.cur.stmts, fmt.Sprintf("SCopyMutObs %s %s %s (EAppend (EPart (PLit (TPrim 93))))", root, coqPath(c.l.steps), q))
+		g.cur.expect = append(g.cur.expect, expect{m.t, m})
+		g.count("stmt:if-let-copy")
+		return true
+	}
+	if c.kind == "loop-opt" {
+		// loop variable of optional type: e?.append acts on the copy held by the loop variable
+		g.cur.lines = append(g.cur.lines, fmt.Sprintf("for e in %s { e?.append(7); log(e) }", src))
+		for i, k := range c.l.v.kids {
+			path := coqPath(append(append([]int64{}, c.l.steps...), int64(i)))
+			m := k.clone()
+			if isNil(m) {
+				g.cur.stmts = append(g.cur.stmts, fmt.Sprintf("SObs %s %s", root, path))
+			} else {
+				m.kids[0].kids = append(m.kids[0].kids, &val{t: tInt, n: 7})
+				g.cur.stmts = append(g.cur.stmts, fmt.Sprintf("SCopyMutObs %s %s [0] (EAppend (EPart (PLit (TPrim 7))))", root, path))
+			}
+			g.cur.expect = append(g.cur.expect, expect{m.t, m})
+		}
+		g.count("stmt:loop-copy-optional")
+		return true
+	}
 	if c.kind == "loop" {
 		method := "appendYs"
 		if c.l.v.t == tArrS {
